@@ -32,6 +32,7 @@ type Event struct {
 	Bk   bool     `json:"bk"`            // AddV2Pool: basis block is known to the manager
 	Who  string   `json:"who,omitempty"` // Ban: role of the banned address (honest:<name> | byz:<name> | subnet | unknown)
 	Why  string   `json:"why,omitempty"` // error text / ban reason (not interpreted by the spec)
+	Kind string   `json:"kind"`          // Ban: abbreviated reason (banKind)
 	T    int64    `json:"t"`             // ms since scenario start (not interpreted by the spec)
 
 	// Tree / Node events
@@ -208,7 +209,7 @@ func (ps *recPS) Ban(addr string, _ time.Duration, reason string) error {
 	ps.nban++
 	ps.mu.Unlock()
 	ps.rec.mu.Lock()
-	ps.rec.emit(Event{Op: "Ban", Who: who, Why: reason})
+	ps.rec.emit(Event{Op: "Ban", Who: who, Why: reason, Kind: banKind(reason)})
 	ps.rec.mu.Unlock()
 	return nil
 }
